@@ -202,6 +202,7 @@ type vRefRunner struct {
 	model int
 	mock  *vMock
 	held  int
+	ka0   bool // the request served last asked for keep_alive 0: the runner goes away when its last user finishes
 }
 
 // vSeqHistory: one client; requests with forever keep-alive; some grants kept open and released later.
@@ -270,6 +271,9 @@ func vGenSeq(r *kit.Rand, idx int) *vHistory {
 		}
 		a.KeepOpen = r.Chance(1, 4)
 		a.PingFails = r.Chance(1, 10)
+		if !h.Spread && r.Chance(1, 5) {
+			a.KeepAliveUs = 0 // unload as soon as this (and every other) user of the runner is done
+		}
 		script = append(script, a)
 	}
 	h.Clients = [][]vAction{script}
@@ -294,6 +298,22 @@ func vRunSeq(t testing.TB, h *vHistory, rep *kit.Report) (vs []vViol, skipped in
 	maxLoaded := h.MaxLoaded
 	nextRunner := 1
 	script := h.Clients[0]
+	var expired []int // runners predicted to have expired (keep_alive 0) since the last check
+	// settle: the scheduler has processed every release: its reference counts equal the grants still held and
+	// its runner map has the size the reference predicts (expired runners are gone, i.e. closed and removed)
+	settle := func() bool {
+		for k := 0; k < 20000; k++ {
+			held := 0
+			for _, x := range loaded {
+				held += x.held
+			}
+			if _, n, refs, lok := w.pendingTimers(); lok && refs == held && n == len(loaded) {
+				return true
+			}
+			vYield(4)
+		}
+		return false
+	}
 	for i, a := range script {
 		// release some kept-open grants first (always release when the request would need a busy runner gone)
 		ref := loaded[a.Model]
@@ -315,19 +335,17 @@ func vRunSeq(t testing.TB, h *vHistory, rep *kit.Report) (vs []vViol, skipped in
 		if needGone() || (len(opens) > 0 && i%3 == 2) {
 			for _, o := range opens {
 				o.cancel()
-				loaded[o.model].held--
-			}
-			opens = nil
-			// the finish events must have been processed before the next decision is predicted
-			ok := false
-			for k := 0; k < 20000 && !ok; k++ {
-				_, _, refs, lok := w.pendingTimers()
-				ok = lok && refs == 0
-				if !ok {
-					vYield(4)
+				if rr := loaded[o.model]; rr != nil {
+					if rr.held--; rr.held == 0 && rr.ka0 {
+						delete(loaded, o.model) // keep_alive 0: expires with its last user
+						expired = append(expired, rr.id)
+						rep.Count("seq_keepalive0_expiries_predicted", 1)
+					}
 				}
 			}
-			if !ok {
+			opens = nil
+			// the finish events (and the expiries they cause) must have been processed before the next decision is predicted
+			if !settle() {
 				return nil, 1
 			}
 		}
@@ -356,6 +374,18 @@ func vRunSeq(t testing.TB, h *vHistory, rep *kit.Report) (vs []vViol, skipped in
 			}
 		}
 		before := w.log.snapshot()
+		for _, id := range expired {
+			n := 0
+			for _, e := range before {
+				if e.Kind == "close-begin" && e.Runner == id {
+					n++
+				}
+			}
+			if n != 1 {
+				vs = append(vs, vViol{"c11:seq:keepalive0-runner-not-closed", fmt.Sprintf("runner %d served its last request with keep_alive 0 and left the scheduler's map, but was closed %d times", id, n), nil})
+			}
+		}
+		expired = nil
 		// ---- execution
 		m := w.modelFor(a)
 		opts := api.DefaultOptions()
@@ -364,7 +394,11 @@ func vRunSeq(t testing.TB, h *vHistory, rep *kit.Report) (vs []vViol, skipped in
 			opts.NumBatch = a.NumBatch
 		}
 		ctx, cancel := contextWithCancel(w)
-		okCh, errCh := w.s.GetRunner(ctx, m, opts, &api.Duration{Duration: 1 << 40})
+		keep := &api.Duration{Duration: 1 << 40}
+		if a.KeepAliveUs == 0 {
+			keep = &api.Duration{Duration: 0}
+		}
+		okCh, errCh := w.s.GetRunner(ctx, m, opts, keep)
 		var got *runnerRef
 		res, _ := w.await(func() bool {
 			select {
@@ -490,25 +524,19 @@ func vRunSeq(t testing.TB, h *vHistory, rep *kit.Report) (vs []vViol, skipped in
 			vs = append(vs, vViol{"c11:max-loaded-exceeded", fmt.Sprintf("after request %d: %d runners loaded, limit %d", a.Req, len(loaded), maxLoaded), evSlice})
 		}
 		if rr := loaded[a.Model]; rr != nil {
+			rr.ka0 = a.KeepAliveUs == 0
 			if a.KeepOpen {
 				rr.held++
 				opens = append(opens, open{cancel, a.Model})
 			} else {
 				cancel()
-				// wait for the finish event so that "idle" is what the scheduler sees, too
-				ok := false
-				for k := 0; k < 20000 && !ok; k++ {
-					held := 0
-					for _, x := range loaded {
-						held += x.held
-					}
-					_, _, refs, lok := w.pendingTimers()
-					ok = lok && refs == held
-					if !ok {
-						vYield(4)
-					}
+				if rr.held == 0 && rr.ka0 {
+					delete(loaded, a.Model)
+					expired = append(expired, rr.id)
+					rep.Count("seq_keepalive0_expiries_predicted", 1)
 				}
-				if !ok {
+				// wait for the finish event so that "idle" is what the scheduler sees, too
+				if !settle() {
 					return vs, 1
 				}
 			}
@@ -533,7 +561,7 @@ func TestVerifC11(t *testing.T) {
 	rep := kit.NewReport("C11")
 	cfg := rep.Cfg()
 	defer rep.Flush()
-	rep.Set("rule", "two workloads. (b) concurrent histories as for C01 (PRNG(seed,'C11',i)) with option/adapter variants, 1-3 GPUs and scripted per-runner VRAM so that co-loading sometimes does not fit; instant invariants at every Start (live runners + 1 <= limit, no live runner of the same model, started with the requester's options, predicted to fit on the GPUs handed over, whose assumed free memory never exceeds min(reported free, total - live runners' VRAM)) and at every grant (runner's load options compatible with the request by the documented rule). (a) sequential single-client histories (PRNG(seed,'C11seq',i)) with forever keep-alive and some grants kept open, compared step by step with a reference scheduler: compatible+healthy => no Start/Close and the same runner; incompatible or failed ping => that runner closed and one Start with the request's options; at the limit => exactly one eviction, of an idle runner when one exists. Non-trivial & distinct = distinct (abstract order signature) of concurrent histories with a reuse or a co-load, plus distinct (prediction-kind sequence) of sequential histories with at least one reload and one eviction")
+	rep.Set("rule", "two workloads. (b) concurrent histories as for C01 (PRNG(seed,'C11',i)) with option/adapter variants, 1-3 GPUs and scripted per-runner VRAM so that co-loading sometimes does not fit; instant invariants at every Start (live runners + 1 <= limit, no live runner of the same model, started with the requester's options, predicted to fit on the GPUs handed over, whose assumed free memory never exceeds min(reported free, total - live runners' VRAM)) and at every grant (runner's load options compatible with the request by the documented rule). (a) sequential single-client histories (PRNG(seed,'C11seq',i)) with forever keep-alive (1 in 5 requests: keep_alive 0, so that busy runners that are about to expire exist next to idle ones) and some grants kept open, compared step by step with a reference scheduler: compatible+healthy => no Start/Close and the same runner; incompatible or failed ping => that runner closed and one Start with the request's options; at the limit => exactly one eviction, of an idle runner when one exists. Non-trivial & distinct = distinct (abstract order signature) of concurrent histories with a reuse or a co-load, plus distinct (prediction-kind sequence) of sequential histories with at least one reload and one eviction")
 	rep.Set("assumptions", []string{
 		"mock runners; VRAM use per runner scripted; fit predicted by the real llm.PredictServerFit on a tiny synthetic model",
 		"the reference scheduler does not predict WHICH idle runner is evicted (tie-break not part of the statement)",
